@@ -279,6 +279,12 @@ def generic_check(prop, tier, seed, cfg, replay=None):
         pa_ok, theorems, raw = print_assumptions(cfg.PROPS_VO[:-1])
         if not pa_ok:
             proof_broken.append({"where": cfg.PROPS_VO[:-1], "log_tail": raw[-2500:]})
+        for extra_vo in getattr(cfg, "EXTRA_VO", []):
+            if extra_vo.startswith("Props/"):
+                ok2, th2, raw2 = print_assumptions(extra_vo[:-1])
+                if not ok2:
+                    proof_broken.append({"where": extra_vo[:-1], "log_tail": raw2[-2500:]})
+                theorems = theorems + th2
         for name, axs in theorems:
             bad = [a for a in axs if a not in ALLOWED_AXIOMS]
             if bad:
